@@ -427,3 +427,19 @@ for fname in ("with_fill", "with_unfill", "without_fill"):
       target="impl Uiua", ret="r", rewrites=R5 + R6_INTO, head_rewrites=R5H,
       ensures=["scoped_same(old(self).rt, final(self).rt)"],
       desc=f"{fname}: every scoped stack has its entry length on exit, whether the body returned Ok or Err (no `?` between push and pop)")
+
+# the run-time cross-check of a call frame against its signature (C02 item 5, C11 call depth)
+U(id="C02.e2.exec_with_frame_span.height", props=["C02", "C11"], kind="fn", file=RUN, impl=UIUAIMPL, impl_name="Uiua", fn="exec_with_frame_span",
+  target="impl Uiua", ret="r",
+  requires=["frame.call_span < old(self).asm.spans@.len()", "_call_span < old(self).asm.spans@.len()", "old(self).rt.stack@.len() <= isize::MAX as nat"],
+  rewrites=[("R4", r"(?m)^\s*#\[cfg\(debug_assertions\)\]\n\s*panic!\([^;]*\);\n", "", "debug-only panic twin of the release error dropped"),
+            ("R4", r"(?m)^\s*#\[cfg\(not\(debug_assertions\)\)\]\n", "", "cfg attribute dropped (the release path is kept)"),
+            ("R3", r"let message = if let Some\(id\) = &frame\.id \{.*?\n            \};", "let message = verif_msg();", "error text dropped"),
+            ("R6", r"self\.exec\(node\.clone\(\)\)", "self.exec(node)", "clone of the node for the debug message dropped")],
+  ensures=[
+      # call depth is restored whatever happens
+      "final(self).rt.call_stack@.len() == old(self).rt.call_stack@.len()",
+      # success is only reported when the stack height changed by exactly outputs - args of the frame's signature
+      "r.is_ok() ==> final(self).rt.stack@.len() as int - old(self).rt.stack@.len() as int == frame.sig.outputs as int - frame.sig.args as int",
+  ],
+  desc="exec_with_frame_span: the call frame is always popped again, and Ok is returned only if the stack height changed by exactly outputs - args of the frame's signature (release-build behaviour; the debug-build panic twin is dropped by R4)")
